@@ -167,6 +167,18 @@ def mk_select(c, a, b, ty):
     return Node("select", ty, (c, a, b))
 
 
+def _is_used(func, name):
+    import re as _re
+    pat = _re.compile(r"%" + _re.escape(name) + r"(?![\w.])")
+    for l, i in func.instrs():
+        if i.res == name:
+            continue
+        body = i.raw.split(" = ", 1)[-1] if i.res is not None else i.raw
+        if pat.search(body):
+            return True
+    return False
+
+
 class DagFunc:
     def __init__(self, func):
         self.func = func
@@ -368,6 +380,8 @@ def build(func, mod=None):
                     rets.append((g, None))
             elif op == "unreachable":
                 pass
+            elif op == "load" and ins.res is not None and not _is_used(func, ins.res):
+                continue  # dead load (e.g. the padding byte of an empty constexpr object)
             elif op in ("store", "load", "getelementptr", "switch", "freeze", "extractvalue", "insertvalue"):
                 raise AnalysisBroken("%s: memory / aggregate instruction outside the accepted fragment: %s"
                                      % (func.name, ins.raw))
